@@ -467,8 +467,12 @@ def check(ctx):
         hf = py.func('message', hn)
         HS_ = gsa.Summary(py, 'message', hn, inline_module_funcs=True)
         lc = [e for e in gsa.find(HS_, 'call', r'(^|\.)log$')]
-        ok = len(lc) == 1 and lc[0].cond is True and lc[0].args == [lvl] + list(HS_.params)[:5] and len(HS_.params) >= 5 and \
-            re.match(r'^MessageLogger\.get\(\)\.log$', lc[0].target) is not None
+        ok = False
+        if len(lc) == 1 and lc[0].cond is True and len(HS_.params) >= 5 and lc[0].vnode is not None:
+            # arguments may be forwarded positionally or by keyword: bind them through the signature of MessageLogger.log
+            b_ = P.bind_call(lc[0].vnode, log)
+            got_ = [gsa._unparse(b_[k_]) if b_.get(k_) is not None else None for k_ in ('log_type', 'text', 'positions', 'prefix', 'marker_pos', 'marker_line')]
+            ok = got_ == [lvl] + list(HS_.params)[:5] and re.match(r'^MessageLogger\.get\(\)\.log$', lc[0].target) is not None
         r6.check(ok, '%s() -> log(%s) unconditionally with all arguments' % (hn, lvl), mm.rel, hf.lineno, '%s: %s' % (hn, [(e.value, e.when()[:60]) for e in lc]))
     ln = py.func('message', 'MessageLogger.log_node')
     lc = [c for c in P.calls_in(ln) if P.src(c.func) == 'self.log']
